@@ -648,6 +648,9 @@ def _check_float_sink(rep: Report, fr: FullReport) -> None:
                 in_fstr = any(isinstance(a, ast.FormattedValue) for a in ancestors(node))
                 n += 1
                 rep.check(in_sink or in_fstr, r, mod.name, f.name if f else "<module>", f"float() at the cell sink: {short(node, 50)}", f"{short(node)} converts to float outside _fill_cell: cells must show float(computed value), not a value that went through float arithmetic", loc(node))
+    from ..engine import check_cell_sink
+
+    check_cell_sink(rep, r)
     sink = prog.func("rp2.plugin.report.abstract_ods_generator", "AbstractODSGenerator._fill_cell")
     txt = unparse(sink.node)
     rep.check("isinstance(value, RP2Decimal)" in txt and "value = float(value)" in txt, r, sink.module, sink.qualname, "_fill_cell converts RP2Decimal with float(value) and nothing else", "_fill_cell no longer converts RP2Decimal values by a plain float(value)", loc(sink.node))
@@ -691,7 +694,8 @@ def _check_legend(rep: Report, fr: FullReport) -> None:
                 rep.check(ok, r, mod.name, "Generator.generate", f"{mod.name.split('.')[-1]}: legend inputs forwarded unchanged", f"{mod.name}: _initialize_output_file receives {[(p, k2.get(p)) for p in ('years_2_accounting_method_names', 'from_date', 'to_date')]}; expected the generator's own arguments", loc(n))
     init = prog.func("rp2.plugin.report.abstract_ods_generator", "AbstractODSGenerator._initialize_output_file")
     txt = unparse(init.node)
-    ok = "from_date if from_date != MIN_DATE else" in txt and "to_date if to_date != MAX_DATE else" in txt and "years_2_accounting_method_names" in txt and "method.upper()" in txt
+    # canonical polarity of conditional expressions (sa/canon.py): `d if d != MIN_DATE else "non-specified"` is read as `"non-specified" if d == MIN_DATE else d`
+    ok = "if from_date == MIN_DATE else from_date" in txt and "if to_date == MAX_DATE else to_date" in txt and "years_2_accounting_method_names" in txt and "method.upper()" in txt
     rep.check(ok, r, init.module, init.qualname, "legend cells are filled from the method table and the two dates", "_initialize_output_file no longer fills the Accounting Method / From / To cells from years_2_accounting_method_names, from_date and to_date", loc(init.node))
 
 
@@ -734,7 +738,7 @@ def _check_average_price(rep: Report, fr: FullReport) -> None:
     ok = False
     if len(rets) == 1 and num and den:
         v = rets[0].value
-        q = v.body if isinstance(v, ast.IfExp) else v
+        q = next((x for x in (v.body, v.orelse) if isinstance(x, ast.BinOp)), v.body) if isinstance(v, ast.IfExp) else v  # either branch: the loader puts conditional expressions in positive polarity
         ok = isinstance(q, ast.BinOp) and isinstance(q.op, ast.Div) and unparse(q.left) == num[0] and unparse(q.right) == den[0]
         for name in (num[0], den[0]):
             inits = [n for n in fi.node.body[: fi.node.body.index(loop)] if isinstance(n, (ast.Assign, ast.AnnAssign)) and unparse(n.targets[0] if isinstance(n, ast.Assign) else n.target) == name]
